@@ -18,14 +18,23 @@
    For the harness payload (colour, id list) with rpay_reduce = "keep the accumulator's colour, append the other's ids",
    [order_ok g n p] is literally the test that [chk_payload_order_node] (Check/RecompOrder.v) runs on the path p it gets
    from [node_path] (C09S_chk_payload_order_node_eq); C09S_payload_order_model proves it of the model's output on the
-   model's own paths.  NOT proved: that [node_path] (the greedy tiling witness search on the spelled sequence) returns
-   the model's path, i.e. [chk_payload_order K st g out = true] for the model's output (it needs the determinism of the
-   tiling, which fails without a hypothesis like RecompOutEnds.cross_ok on ALL nodes of g, censored ones included). *)
+   model's own paths.
+
+   The checker itself on the model's output (C09S_chk_payload_order_model): [node_path] - the greedy tiling of the result
+   sequence by oriented input nodes, each found by find_link from the first k-mer of what remains - returns the model's
+   path (C09S_node_path_complete, C09S_model_node_paths) provided no node end of the input graph is the reverse complement
+   of the opposite end of another node: [cross_all g] := RecompOutEnds.cross_ok g (all node ids, censored ones included),
+   the third clause of C03's [ends_ok]; it holds when stranded, under ends_ok (every graph compress_kmers builds; checked
+   on every implementation graph by chk_graph_ok), and when every canonical k-mer occurs once in g.  The hypothesis is
+   NECESSARY: C09S_chk_payload_order_needs_cross - a VALID graph on which the model's own (correct) output is rejected by
+   chk_payload_order, because node_path, looking for a node that starts with the first k-mer ACG of ACGCAA, finds node 2
+   (ACGG) instead of node 3 (GCGT) traversed flipped.  (The other checkers built on node_path - chk_maximal (b),
+   chk_exts, chk_payload - reject that output for the same reason.) *)
 From Coq Require Import NArith List Bool Arith.
 From DBG Require Import Proofs.AbstractWalk Proofs.SeedMin.
 From DBG Require Import Spec.Dna Spec.GraphIndex Packed.ExtsModel Algo.Compress Algo.GraphModel Algo.Recompress
-  Check.RecompCheck Check.RecompLooseCheck Check.RecompOrder Proofs.RecompCheckProofs Proofs.RecompressProofs
-  Proofs.RecompLooseMain Proofs.RecompSeedMin.
+  Spec.EdgeSpec Proofs.WalkProofs Check.RecompCheck Check.RecompLooseCheck Check.RecompOrder Proofs.RecompCheckProofs Proofs.RecompressProofs
+  Proofs.RecompLoose Proofs.RecompLooseMain Proofs.RecompOutEnds Proofs.RecompSeedMin Proofs.RecompTile Proofs.RecompOrderComplete.
 Import ListNotations.
 Open Scope N_scope.
 
@@ -169,3 +178,98 @@ Proof.
   - exact (C09S_payload_order_model 4 false (rpay_join 0) Hj ex_seed None _ _ V Hc).
 Qed.
 Print Assumptions C09S_nonvacuous_seed.
+
+(* ---- the checker on the model's output: completeness of node_path ------------------------------------------------------ *)
+(* the tiling finds any path whose consecutive oriented nodes overlap in K-1 bases and whose elements are what find_link
+   answers on their first k-mers ([found]) *)
+Theorem C09S_node_path_complete : forall D K stranded (g : graph D) p s, (1 <= K)%nat -> p <> [] ->
+  (forall x, In x p -> (fst x < length g)%nat /\ (K <= length (oseq D g x))%nat) ->
+  EdgeSpec.chain (seq_overlap K) (map (oseq D g) p) ->
+  (forall x, In x p -> found D K stranded g x) ->
+  sequence_of_path D K g p = Some s ->
+  node_path D K stranded g s = Some p.
+Proof. exact node_path_complete. Qed.
+Print Assumptions C09S_node_path_complete.
+
+Theorem C09S_node_path_seqs : forall D K stranded (g g' : graph D) s, g_seqs D g' = g_seqs D g ->
+  node_path D K stranded g' s = node_path D K stranded g s.
+Proof. exact node_path_seqs. Qed.
+Print Assumptions C09S_node_path_seqs.
+
+(* on the sequence of every result node of the model, node_path (run on the INPUT graph) returns the model's node path *)
+Theorem C09S_model_node_paths : forall D reduce join K stranded, (forall a b, join a b = join b a) ->
+  forall (g : graph D) censor out paths,
+  rvalid_loose D K stranded g -> cross_all D K stranded g ->
+  compress_graph_paths D reduce join K stranded g censor = Some (out, paths) ->
+  Forall2 (fun n p => node_path D K stranded g (n_seq D n) = Some p) out paths.
+Proof. exact model_node_paths. Qed.
+Print Assumptions C09S_model_node_paths.
+
+(* chk_payload_order accepts the model's own output: harness payload, non-commutative rpay_reduce, any symmetric join
+   (in particular rpay_join mode), any K, strandedness, loosely valid input, censor list.  No hypothesis on the id lists
+   carried by the input nodes is needed (they may be empty or overlap: the checker compares lists). *)
+Theorem C09S_chk_payload_order_model : forall K stranded (join : rpay -> rpay -> bool), (forall a b, join a b = join b a) ->
+  forall (g : graph rpay) censor out,
+  rvalid_loose rpay K stranded g -> cross_all rpay K stranded g ->
+  compress_graph rpay rpay_reduce join K stranded g censor = Some out ->
+  chk_payload_order K stranded g out = true.
+Proof. exact chk_payload_order_model. Qed.
+Print Assumptions C09S_chk_payload_order_model.
+
+(* where the hypothesis on the ends holds *)
+Theorem C09S_cross_all_stranded : forall D K stranded (g : graph D), stranded = true -> cross_all D K stranded g.
+Proof. exact cross_all_stranded. Qed.
+Print Assumptions C09S_cross_all_stranded.
+
+Theorem C09S_cross_all_of_ends_ok : forall D K stranded (g : graph D), ends_ok D K stranded g -> cross_all D K stranded g.
+Proof. exact cross_all_of_ends_ok. Qed.
+Print Assumptions C09S_cross_all_of_ends_ok.
+
+Theorem C09S_cross_all_of_kmers : forall D K stranded (g : graph D),
+  Forall (node_ok D K) g -> NoDup (surv_kmers D K stranded g (seq 0 (length g))) -> cross_all D K stranded g.
+Proof. exact cross_all_of_kmers. Qed.
+Print Assumptions C09S_cross_all_of_kmers.
+
+(* non-vacuity: the example above meets the hypothesis, so the theorem (not a computation) yields the checker's verdict *)
+Example C09S_nonvacuous_chk :
+  cross_all rpay 4 false ex_seed /\
+  (cross_all rpay 4 false ex_seed -> chk_payload_order 4 false ex_seed ex_seed_out = true).
+Proof.
+  destruct C09S_nonvacuous as (V & Hc & _). split.
+  - apply C09S_cross_all_of_kmers; [apply V | apply nodupb_sound; vm_compute; reflexivity].
+  - intro C. apply (C09S_chk_payload_order_model 4 false (rpay_join 0) (fun a b => eq_refl) ex_seed None ex_seed_out V C).
+    unfold compress_graph. rewrite Hc. reflexivity.
+Qed.
+Print Assumptions C09S_nonvacuous_chk.
+
+(* ---- the hypothesis is necessary ----------------------------------------------------------------------------------------- *)
+(* K = 3, unstranded, harness spec mode 1 (the graph C09O_cross_graph of Properties/C09Out.v): VALID, but the left end ACG
+   of node 2 (ACGG) is the reverse complement of the right end CGT of node 3 (GCGT).  The model merges node 3 (flipped) and
+   node 0 into ACGCAA with payload (1,[0;3]) - seed 0, the smallest id, fold order as proved above - and the checker
+   REJECTS this output: node_path finds no tiling of ACGCAA (it starts with node 2).  A false alarm of the checker, not a
+   defect of the code under test; it cannot occur on graphs with C03's ends_ok. *)
+Definition ex_cross : graph rpay :=
+  [ ([2;1;0;0], 2, (1,[0])); ([3;3;0;1], 64, (1,[1])); ([0;1;2;2], 8, (2,[2])); ([2;1;2;3], 24, (1,[3])); ([2;3;0;0], 2, (3,[4])) ].
+Example C09S_chk_payload_order_needs_cross :
+  rvalid rpay 3 false ex_cross /\ rvalid_loose rpay 3 false ex_cross /\ ~ cross_all rpay 3 false ex_cross /\
+  exists out paths, compress_graph_paths rpay rpay_reduce (rpay_join 1) 3 false ex_cross None = Some (out, paths) /\
+    out = [ ([0;1;2;1;0;0], 8, (1,[0;3])); ([3;3;0;1], 64, (1,[1])); ([0;1;2;2], 8, (2,[2])); ([2;3;0;0], 2, (3,[4])) ] /\
+    paths = [ [(3%nat, DRight); (0%nat, DLeft)]; [(1%nat, DLeft)]; [(2%nat, DLeft)]; [(4%nat, DLeft)] ] /\
+    Forall2 (fun n p => sequence_of_path rpay 3 ex_cross p = Some (n_seq rpay n) /\ order_ok ex_cross n p = true) out paths /\
+    node_path rpay 3 false ex_cross [0;1;2;1;0;0] = None /\
+    chk_payload_order 3 false ex_cross out = false.
+Proof.
+  assert (V : rvalid rpay 3 false ex_cross) by (apply rvalidb_sound; vm_compute; reflexivity).
+  assert (VL : rvalid_loose rpay 3 false ex_cross) by (apply (proj1 (RecompLoose.rvalid_iff_loose rpay 3 false ex_cross) V)).
+  split; [exact V|]. split; [exact VL|]. split.
+  { intro X.
+    destruct (X eq_refl 2%nat 3%nat DLeft ([0;1;2;2], 8, (2,[2])) ([2;1;2;3], 24, (1,[3]))) as [E _];
+      [vm_compute; auto 10 | vm_compute; auto 10 | reflexivity | reflexivity | vm_compute; reflexivity | discriminate E]. }
+  eexists. eexists. split; [vm_compute; reflexivity|]. split; [reflexivity|]. split; [reflexivity|].
+  split.
+  { apply (C09S_payload_order_model 3 false (rpay_join 1)) with (censor := None);
+      [intros a b; unfold rpay_join; cbn; apply N.eqb_sym | exact VL |].
+    vm_compute. reflexivity. }
+  split; vm_compute; reflexivity.
+Qed.
+Print Assumptions C09S_chk_payload_order_needs_cross.
